@@ -58,8 +58,11 @@ def lengths(firsts, length):
 
 
 def make_scenario(kind, firsts, length):
+    with_wait = kind.endswith("+wait")
+    kind = kind.replace("+wait", "")
     n = len(firsts)
     lens = lengths(firsts, length)
+    fractional = any(f != int(f) for f in firsts)
 
     def scenario(ch: Chooser) -> Observation:
         obs = Observation()
@@ -88,14 +91,22 @@ def make_scenario(kind, firsts, length):
             outputs = []
             log = []
 
+            waited = [False]
+
             def enabled():
                 ev = [("deliver", i) for i in range(n) if sent[i] < lens[i]]
                 if not started[0]:
                     ev.append(("start",))
+                if with_wait and not waited[0] and 0 < sum(sent) < sum(lens):
+                    ev.append(("wait", 12.0))  # nothing is delivered for 12 s
                 return ev
 
             def fire(e):
                 log.append(e)
+                if e[0] == "wait":
+                    waited[0] = True
+                    loop.advance(e[1])
+                    return
                 if e[0] == "deliver":
                     i = e[1]
                     t = firsts[i] + sent[i]
@@ -138,6 +149,18 @@ def make_scenario(kind, firsts, length):
 
             viol = []
             C = obs.clauses
+            if fractional:
+                # the streams never share a timestamp: nothing may be emitted
+                C["no_output_without_a_common_timestamp"] = 1
+                if outputs:
+                    viol.append(("no_output_without_a_common_timestamp", {"first_timestamps": list(firsts), "outputs": outputs[:4],
+                                                                          "events": [list(e) for e in log]}))
+                obs.violations = viol
+                obs.events = len(log)
+                obs.outcome = "fractional-no-output"
+                obs.nontrivial = True
+                obs.state_keys = [repr((tuple(sent), started[0], len(outputs)))]
+                return obs
             lo = max(firsts)
             hi = min(f + l - 1 for f, l in zip(firsts, lens))
             for T, dec in outputs:
@@ -246,6 +269,13 @@ def run(tier: str, seed: int, workers: int):
                 continue  # the ("end", k) plans are about three distinct first timestamps
             shards.append((kind, firsts, length, bound))
     shards.append(("directed",))
+    # streams whose timestamps are shifted against each other by half a step (no common timestamp at all)
+    shards.append(("builder", (0, 0.5), 3, 0))
+    shards.append(("api", (0.5, 0), 3, 0))
+    # nothing is delivered for 12 s at some point (longer than any plausible internal fetch timeout)
+    shards.append(("builder+wait", (0, 0), 3, 0))
+    shards.append(("builder+wait", (0, 1), 3, 0))
+    shards.append(("api+wait", (0, 0, 1), 2, 0))
     determinism_selfcheck(make_scenario("builder", (0, 1), 3))
     if seed:
         import random
@@ -257,7 +287,8 @@ def run(tier: str, seed: int, workers: int):
         "L = 2-4 samples per stream (or all streams ending one step after the latest start, for three distinct first timestamps); every interleaving of per-stream deliveries (order kept) and of the consumer starting the "
         "engine, injected at quiescence; delivery between two loop iterations as deviation (bound per plan); engines built with "
         "FormulaBuilder, with the composition API (leaf engines as separate tasks) and as FormulaEngine3Phase over three phase "
-        "engines; non-trivial = streams start on different timestamps or the consumer starts late; plus one directed execution per builder "
+        "engines; plus two streams shifted by half a step against each other (no output allowed) and plans in which nothing is delivered for "
+        "12 s at any one point; non-trivial = streams start on different timestamps or the consumer starts late; plus one directed execution per builder "
         "kind: an output receiver asked for with max_size=60 that is read only after 55 results have accumulated",
         "assumptions": [
             "receiver backlog never exceeds the default capacity (L <= 4)",
